@@ -151,6 +151,7 @@ def _aesni_loop_relational(nu, w, ld, stv):
     A = poly.Analysis(w, assume=[("==", N, Lin.const(0)), ("==", I0, Lin.var(IN)), ("==", O0, Lin.var(OUT)), ("==", L0, Lin.var(LEN)), ("==", C0, Lin.var(CTR)), (">=", L0, Lin.const(16))],
                       quiet=names, unsigned_terms={LEN, CTR}, post={"_mm_storeu_si128": lambda A_, call, st, cs: A_.bump(cs, ("$n",), 1)})
     A.any_ptr = True
+    A.karr_cap = 16        # cursors held in locals next to the four entry ghosts: more equalities than the default join combines
     A.run()
     sl, ss = A.state_before(ld[0]), A.state_before(stv[0])
     if sl is None or ss is None:
